@@ -493,6 +493,17 @@ def match_known(prop, sig, scenario, detail=''):
 
 # ------------------------------------------------------------------ check
 
+def classify_known(prop, sig, scenario, detail=''):
+    """id of the known finding (of this property, else of another property) a raw violation record matches, or None"""
+    k = match_known(prop, sig, scenario, detail)
+    if k:
+        return k['id']
+    for kk in load_known():
+        if kk.get('status') == 'known' and kk.get('property') != prop and match_known(kk['property'], sig, scenario, detail):
+            return kk['id']
+    return None
+
+
 def tree_desc():
     try:
         h = subprocess.run(['git', '-C', REPO, 'rev-parse', 'HEAD'], stdout=subprocess.PIPE, text=True).stdout.strip()
@@ -577,8 +588,12 @@ def check(prop, tier, seed):
         log('[%s] %s/%s: %d runs, %d nontrivial, %d shapes, %d violating, %d crashed workers, %.1fs' %
             (prop, sim, mode, merged['evaluations'], merged['nontrivial'], nshapes, len(viols), len(crashes), merged['wall_ms'] / 1000))
         for v in viols:
-            if v['sig'] not in findings:
-                findings[v['sig']] = (sim, v['scenario'], v.get('detail', ''), part.get('env'))
+            # one candidate per (signature, known finding it matches or none): a known finding must not hide a different
+            # violation that happens to carry the same signature
+            k0 = classify_known(prop, v['sig'], v['scenario'], v.get('detail', ''))
+            key = (v['sig'], k0)
+            if key not in findings:
+                findings[key] = (sim, v['scenario'], v.get('detail', ''), part.get('env'))
         for c in crashes:
             if c['last'] is None:
                 infra.append('worker %d of %s died before its first run: %s' % (c['worker'], sim, c['stderr'][-1500:]))
@@ -592,13 +607,19 @@ def check(prop, tier, seed):
                 infra.append(str(e))
                 continue
             sig = crash_sig(c['stderr'], c['hung'])
-            if sig not in findings:
-                findings[sig] = (sim, sc, crash_detail(c['stderr']), part.get('env'))
+            key = (sig, classify_known(prop, sig, sc, crash_detail(c['stderr'])))
+            if key not in findings:
+                findings[key] = (sim, sc, crash_detail(c['stderr']), part.get('env'))
     # confirm, shrink, classify
     violations, known = [], []
-    for sig, (sim, sc, detail, fenv) in findings.items():
+    for (sig, k0), (sim, sc, detail, fenv) in findings.items():
         try:
             res = confirm_and_minimise(b, prop, sim, sig, sc, seed, env=fenv)
+            if res is not None and k0 is None:
+                # shrinking must not turn an unlisted violation into a listed one
+                scn1 = json.load(open(res[1]))['scenario']
+                if classify_known(prop, res[0], scn1, res[2]) is not None:
+                    res = confirm_and_minimise(b, prop, sim, sig, sc, seed, do_shrink=False, env=fenv)
         except Infra as e:
             infra.append(str(e))
             continue
